@@ -108,6 +108,13 @@ def run_case(acc, idx, c):
             acc.violation("C08:to-wrong-unit", idx, c, {"unit": str(b.unit)})
             return "wrong-unit", True
         tol = _arr.eps_for(dt) + tP + tQ
+        # a value that the element type cannot hold in the target unit (float32 under/overflow, e.g. eV -> L_sun*s is a
+        # factor 4e-46) is not a conversion error: only representable results are compared
+        if np.issubdtype(b.dtype, np.floating):
+            fi = np.finfo(b.dtype)
+            want_num = np.abs(np.asarray(P, dtype=np.float64) / s2)
+            if np.any((want_num != 0) & ((want_num < fi.tiny * 1e3) | (want_num > fi.max / 1e3))):
+                return "skipped-result-not-representable-in-dtype", False
         if not _arr.close(Q, P, tol):
             acc.violation("C08:to-changed-physical-value", idx, c, {"before_cgs": np.ravel(P)[:3].tolist(), "after_cgs": np.ravel(Q)[:3].tolist(), "unit": str(b.unit)})
             return "wrong-value", True
